@@ -350,6 +350,15 @@ fn check<E: EndianParse + core::fmt::Debug>(e: E, o: &Obj, c: &mut Choice, obs: 
             if a.len() != o.dyns.len() || !a.iter().zip(o.dyns.iter()).all(|(x, y)| conv::dyn_eq(&x, y, enc)) {
                 return Err(format!("dynamic() entries differ from the encoded entries {:?}", o.dyns));
             }
+            if o.dyns.len() >= 2 {
+                let mut it = b.iter();
+                let _ = it.next();
+                let k = o.dyns.len() - 2;
+                match it.nth(k) {
+                    Some(x) if conv::dyn_eq(&x, &o.dyns[k + 1], enc) => {}
+                    x => return Err(format!("dynamic().iter(): next() then nth({}) = {:?}; the encoded entry #{} is {:?}", k, x, k + 1, o.dyns[k + 1])),
+                }
+            }
             match (b.iter().last(), o.dyns.last()) {
                 (Some(x), Some(y)) if conv::dyn_eq(&x, y, enc) && b.iter().count() == o.dyns.len() => {}
                 (None, None) => {}
@@ -497,6 +506,16 @@ fn check<E: EndianParse + core::fmt::Debug>(e: E, o: &Obj, c: &mut Choice, obs: 
                 (None, None) => true,
                 _ => false,
             };
+            // nth() on a partly consumed iterator counts from the cursor
+            if want.len() >= 2 {
+                let mut it = f.section_data_as_rels(&h).map_err(|e| format!("{}", err_name(&e)))?;
+                let _ = it.next();
+                let k = want.len() - 2;
+                let g = it.nth(k);
+                if !eq(&g, want.get(k + 1)) {
+                    return Err(format!("section {} as Rel entries: next() then nth({}) = {:?}; the encoded entry #{} is {:?}", i, k, g, k + 1, want.get(k + 1)));
+                }
+            }
             if !eq(&la, want.last()) || na != want.len() || (!compressed && (!eq(&lb, want.last()) || nb != want.len())) {
                 return Err(format!("section {} as Rel entries: last()/count() = {:?}/{} (slice) {:?}/{} (stream); the encoded entries end with {:?} and number {}", i, la, na, lb, nb, want.last(), want.len()));
             }
@@ -522,6 +541,15 @@ fn check<E: EndianParse + core::fmt::Debug>(e: E, o: &Obj, c: &mut Choice, obs: 
                 (None, None) => true,
                 _ => false,
             };
+            if want.len() >= 2 {
+                let mut it = f.section_data_as_relas(&h).map_err(|e| format!("{}", err_name(&e)))?;
+                let _ = it.next();
+                let k = want.len() - 2;
+                let g = it.nth(k);
+                if !eq(&g, want.get(k + 1)) {
+                    return Err(format!("section {} as Rela entries: next() then nth({}) = {:?}; the encoded entry #{} is {:?}", i, k, g, k + 1, want.get(k + 1)));
+                }
+            }
             if !eq(&la, want.last()) || na != want.len() || (!compressed && (!eq(&lb, want.last()) || nb != want.len())) {
                 return Err(format!("section {} as Rela entries: last()/count() = {:?}/{} (slice) {:?}/{} (stream); the encoded entries end with {:?} and number {}", i, la, na, lb, nb, want.last(), want.len()));
             }
@@ -751,7 +779,7 @@ pub fn property() -> Property {
     Property {
         id: "C20",
         level: "exploration",
-        rule: "cases are generated objects with at most one section of each kind, each of .symtab(+strtab), .dynsym(+dynstr), .dynamic, .hash, .gnu.hash present or absent independently, 1..5 filler sections of types REL/RELA/NOTE/STRTAB/NOBITS/PROGBITS with arbitrary sh_entsize and flags such as SHF_STRINGS/SHF_MERGE/SHF_INFO_LINK (an eighth of the REL/RELA sections flagged SHF_COMPRESSED behind a compression header, where the view is the view over section_data; a fifth ending in a partial entry), sections in shuffled order (5%: no SHT_NULL entry in front; rarely 65 541+ sections so that indexes and sh_link values exceed 16 bits), names drawn from a pool of prefixes/suffixes of each other, duplicates, the empty name, a non-UTF-8 name, names differing from another by a trailing 0x01/0x7f/U+0080 byte and names longer than 16 bytes, sh_link of the symbol tables pointing at their string table or at ANY section, PT_DYNAMIC only together with .dynamic, PT_NOTE/other segments, a share of the objects without a .dynsym section carrying DT_SYMTAB/DT_STRTAB/DT_STRSZ/DT_SYMENT/DT_HASH entries that point at a symbol table inside an identity-mapped PT_LOAD, class x order x fixed/run-time spec. Oracle: find_common_data() fields vs symbol_table(), dynamic_symbol_table(), dynamic() (presence, every entry, strings at every offset) and vs hash tables rebuilt from section_data (every name looked up through both); section_header_by_name(n) (both parsers) = first header of a manual scan whose UTF-8 name string equals n, for every present name, prefixes, extensions, absent names and queries containing NULs that line up with adjacent string-table entries; every section handed to every typed view (strtab, rels, relas, notes; both parsers): refused iff the type differs, otherwise entries equal the encoded model / the reference walk of the raw bytes, and the relocation iterators' and the dynamic table's own last() and count() agree with that model on both parsers; segment_data_as_notes refused iff p_type != PT_NOTE; dynamic() via .dynamic equals dynamic() and find_common_data().dynamic of the stripped twin (e_shoff=0) via PT_DYNAMIC, both parsers. Non-trivial: >=3 kinds present, at least one wrong-type refusal and one duplicate/prefix name query; distinct by file hash. Subcheck damaged: the same objects with one or two fields (sh_entsize, sh_link, sh_size, sh_offset) of the .symtab/.dynsym/.dynamic/.hash/.gnu.hash section headers overwritten with wrong values (0, off by one, the other class's size, counts, beyond EOF, 2^32+right): find_common_data() succeeds exactly when symbol_table(), dynamic_symbol_table(), dynamic() and the hash-table constructors on the raw section bytes all succeed, and then holds the same tables; non-trivial there: both refuse.",
+        rule: "cases are generated objects with at most one section of each kind, each of .symtab(+strtab), .dynsym(+dynstr), .dynamic, .hash, .gnu.hash present or absent independently, 1..5 filler sections of types REL/RELA/NOTE/STRTAB/NOBITS/PROGBITS with arbitrary sh_entsize and flags such as SHF_STRINGS/SHF_MERGE/SHF_INFO_LINK (an eighth of the REL/RELA sections flagged SHF_COMPRESSED behind a compression header, where the view is the view over section_data; a fifth ending in a partial entry), sections in shuffled order (5%: no SHT_NULL entry in front; rarely 65 541+ sections so that indexes and sh_link values exceed 16 bits), names drawn from a pool of prefixes/suffixes of each other, duplicates, the empty name, a non-UTF-8 name, names differing from another by a trailing 0x01/0x7f/U+0080 byte and names longer than 16 bytes, sh_link of the symbol tables pointing at their string table or at ANY section, PT_DYNAMIC only together with .dynamic, PT_NOTE/other segments, a share of the objects without a .dynsym section carrying DT_SYMTAB/DT_STRTAB/DT_STRSZ/DT_SYMENT/DT_HASH entries that point at a symbol table inside an identity-mapped PT_LOAD, class x order x fixed/run-time spec. Oracle: find_common_data() fields vs symbol_table(), dynamic_symbol_table(), dynamic() (presence, every entry, strings at every offset) and vs hash tables rebuilt from section_data (every name looked up through both); section_header_by_name(n) (both parsers) = first header of a manual scan whose UTF-8 name string equals n, for every present name, prefixes, extensions, absent names and queries containing NULs that line up with adjacent string-table entries; every section handed to every typed view (strtab, rels, relas, notes; both parsers): refused iff the type differs, otherwise entries equal the encoded model / the reference walk of the raw bytes, and the relocation iterators' and the dynamic table's own last(), count() and next-then-nth agree with that model on both parsers; segment_data_as_notes refused iff p_type != PT_NOTE; dynamic() via .dynamic equals dynamic() and find_common_data().dynamic of the stripped twin (e_shoff=0) via PT_DYNAMIC, both parsers. Non-trivial: >=3 kinds present, at least one wrong-type refusal and one duplicate/prefix name query; distinct by file hash. Subcheck damaged: the same objects with one or two fields (sh_entsize, sh_link, sh_size, sh_offset) of the .symtab/.dynsym/.dynamic/.hash/.gnu.hash section headers overwritten with wrong values (0, off by one, the other class's size, counts, beyond EOF, 2^32+right): find_common_data() succeeds exactly when symbol_table(), dynamic_symbol_table(), dynamic() and the hash-table constructors on the raw section bytes all succeed, and then holds the same tables; non-trivial there: both refuse.",
         assumptions: &["only refusal (Err) is required for wrong-type views, not a particular error kind", "in subcheck paths objects are well formed, so find_common_data and the targeted accessors are required to succeed; in subcheck damaged only their agreement is required"],
         subs: vec![Sub::new("paths", oracle, 900, 800_000, 25_000_000).shrink(2500), Sub::new("damaged", oracle_damaged, 900, 150_000, 10_000_000).shrink(2500)],
         extras: vec![crate::fuzz::c20_choice_paths, crate::fuzz::c20_choice_damaged],
